@@ -229,7 +229,8 @@ def run(ctx):
         j = jsons[i]
         code, diff = pl.decode_sig(sig)
         if ctx.nreplay < 3:
-            j = pl.minimise(ctx, tools, j, sig)
+            j, sig = pl.minimise(ctx, tools, j, sig)
+            code, diff = pl.decode_sig(sig)
         rep = {"case": pl.view(j),
                "verdict": "recorded protoc invocation violates the specification",
                "differs_in": diff, "replay_cmd": "./check C20 --replay <this file>"}
@@ -249,7 +250,8 @@ def run(ctx):
             j = jsons[i]
             code, diff = pl.decode_sig(sig)
             if ctx.nreplay < 3:
-                j = pl.minimise(ctx, tools, j, sig)
+                j, sig = pl.minimise(ctx, tools, j, sig)
+                code, diff = pl.decode_sig(sig)
             ctx.report({"case": pl.view(j),
                         "verdict": "recorded protoc invocation satisfies the specification but differs from the Coq model",
                         "differs_in": diff, "widened_search": widened,
